@@ -93,6 +93,8 @@ def gen_tables(rng, pf=None):
 def build_frames(tb):
     dates = [pd.Timestamp(d) for d in tb["dates"]]
     off = pd.Timedelta(seconds=tb.get("x_offset_s") or 0)      # feature rows published a little after the price rows
+    if tb.get("x_offset_ns"):
+        off = off + pd.Timedelta(nanoseconds=tb["x_offset_ns"])     # ... by less than a microsecond (nanosecond-resolution index)
     X = pd.DataFrame(tb["X"], index=[dates[j] + off for j in tb["x_rows"]], columns=tb["xcols"], dtype=float)
     Y = pd.DataFrame(tb["Y"], index=dates, columns=tb["ycols"], dtype=float)
     rate = pd.Series(tb["rate"], index=dates, name="r", dtype=float) if tb.get("rate") is not None else None
